@@ -92,7 +92,8 @@ type Proc struct {
 	ID      int
 	Cfg     PolicyCfg
 	Factory *appencryption.SessionFactory
-	Dead    bool // crashed or cleanly closed
+	Dead    bool          // crashed or cleanly closed
+	Skew    time.Duration // constant offset of this process's wall clock from simulated time
 	Crashed bool
 	Sess    []*Sess
 }
@@ -127,6 +128,9 @@ type World struct {
 	Prop string
 
 	Service, Product, Suffix string
+	// ClockSkews, when non-empty, gives every process started afterwards a constant clock offset drawn
+	// from it (clock skew between hosts).
+	ClockSkews []time.Duration
 	// NextProcUnsuffixed: processes started while this is set use a metastore without region suffix
 	// (a mixed deployment: records written before suffixing was switched on).
 	NextProcUnsuffixed bool
@@ -208,6 +212,14 @@ func (w *World) IKID(part string) string {
 func (w *World) NewProc(cfg PolicyCfg) *Proc {
 	p := &Proc{ID: len(w.Procs), Cfg: cfg}
 	w.Procs = append(w.Procs, p)
+	if len(w.ClockSkews) > 0 {
+		p.Skew = w.ClockSkews[w.T.Choose(len(w.ClockSkews), "proc.clock-skew")]
+		w.S.SetSkew(procNode(p), p.Skew)
+		if p.Skew != 0 {
+			w.S.Probe("clock.skewed-process")
+		}
+	}
+	defer w.onNode(p)()
 	var ms appencryption.Metastore = &msView{w: w, proc: p.ID}
 	if w.Suffix != "" && !w.NextProcUnsuffixed {
 		ms = &msViewSuffixed{msView: msView{w: w, proc: p.ID}, suffix: w.Suffix}
@@ -227,10 +239,27 @@ func (w *World) NewProc(cfg PolicyCfg) *Proc {
 	return p
 }
 
+// procNode is the simulator's node id of a process: everything a process runs (its operations and
+// the background tasks they start) reads that node's clock.
+func procNode(p *Proc) int { return 1000 + p.ID }
+
+// onNode makes the calling task run as process p until the returned function is called.
+func (w *World) onNode(p *Proc) func() {
+	cur := w.S.Cur()
+	if p == nil || cur == nil {
+		return func() {}
+	}
+	prev := cur.Node
+	cur.Node = procNode(p)
+	return func() { cur.Node = prev }
+}
+
 func (w *World) begin(kind string, p *Proc, part string) *OpRec {
 	op := &OpRec{Idx: len(w.Ops), Kind: kind, Part: part, T0: w.S.Elapsed()}
 	if p != nil {
 		op.Proc = p.ID
+		op.Skew = p.Skew
+		op.offNode = w.onNode(p)
 	} else {
 		op.Proc = -1
 	}
@@ -246,6 +275,9 @@ func (w *World) begin(kind string, p *Proc, part string) *OpRec {
 
 func (w *World) end(op *OpRec) {
 	op.T1 = w.S.Elapsed()
+	if op.offNode != nil {
+		op.offNode()
+	}
 	w.S.Cur().Local = nil
 	w.InFlight--
 	res := "ok"
